@@ -60,12 +60,12 @@ Qed.
 
 Lemma get_win_ensure_fst W mx e e2 ws :
   fst (get_win W e2 (ensure_wins W mx e ws)) = fst (get_win W e2 ws) \/
-  fst (get_win W e2 (ensure_wins W mx e ws)) = mx.
+  (fst (get_win W e2 (ensure_wins W mx e ws)) = mx /\ snd (get_win W e2 ws) = win_init W).
 Proof.
   unfold get_win, ensure_wins. rewrite nth_app_repeat.
   destruct (N.to_nat e2 <? length ws)%nat eqn:E1; [now left|].
   rewrite (nth_overflow ws) by lia.
-  destruct (N.to_nat e2 <? length ws + (S (N.to_nat e) - length ws))%nat; [now right | now left].
+  destruct (N.to_nat e2 <? length ws + (S (N.to_nat e) - length ws))%nat; [right; split; reflexivity | now left].
 Qed.
 
 Lemma get_set_win_same W e x ws : (N.to_nat e < length ws)%nat -> get_win W e (set_win e x ws) = x.
@@ -315,7 +315,7 @@ Section Recv.
     - destruct (e =? 0); cbn [fst snd marks]; [apply wt_refl|exact Hm].
     - destruct ((level =? 2) || (desc =? 0)); destruct (desc =? 0); cbn [fst snd marks app];
         try exact Hm; (apply (wt_mark_then W s prot e q); auto; apply wt_closed).
-    - cbn [fst snd marks]. exact Hm.
+    - destruct (e =? 0); cbn [fst snd marks]; [apply wt_refl|exact Hm].
     - destruct ((e =? 0) || negb (r_rrc s)); cbn [fst snd marks]; [apply wt_refl|exact Hm].
     - destruct (e =? 0); cbn [fst snd marks]; apply wt_refl.
   Qed.
@@ -393,5 +393,329 @@ Section Recv.
     destruct (step W s o) as [s1 o1]. cbn [fst snd] in H1.
     specialize (IH s1). destruct (run_ops W s1 ops) as [s2 o2]. cbn [fst snd] in *.
     rewrite marks_app. eapply wt_trans; eauto.
+  Qed.
+
+  (* ---------------------------------------------------------------- invariants over histories *)
+
+  Lemma accept_latest mx w q :
+    latest (fst (accept mx w q)) = (if latest w <? q then q else latest w) /\
+    snd (accept mx w q) = ((latest w <? q) || (q =? 0)).
+  Proof. unfold accept. destruct (latest w <? q); cbn; auto. Qed.
+
+  Lemma mark_wins W prot s e q :
+    r_wins (mark W prot s e q) =
+    set_win e (fst (get_win W e (r_wins s)),
+               fst (accept (fst (get_win W e (r_wins s))) (snd (get_win W e (r_wins s))) q)) (r_wins s).
+  Proof.
+    unfold mark. destruct (get_win W e (r_wins s)) as [mx w]. cbn [fst snd].
+    destruct (accept mx w q) as [w' isl]. cbn [fst]. destruct (prot && isl); reflexivity.
+  Qed.
+
+  Lemma mark_high W prot s e q :
+    r_high (mark W prot s e q) =
+    if prot && snd (accept (fst (get_win W e (r_wins s))) (snd (get_win W e (r_wins s))) q)
+    then update_high e q (r_high s) else r_high s.
+  Proof.
+    unfold mark. destruct (get_win W e (r_wins s)) as [mx w]. cbn [fst snd].
+    destruct (accept mx w q) as [w' isl]. cbn [snd]. destruct (prot && isl); reflexivity.
+  Qed.
+
+  (* every epoch's detector refines the set of numbers committed for that epoch; its bound is one
+     of the two the code creates detectors with *)
+  Definition GI (W : nat) (s : rstate) (ms : list (N * N)) : Prop :=
+    NoDup ms /\
+    forall e, Inv W (snd (get_win W e (r_wins s))) (Sof e ms) /\
+              latest (snd (get_win W e (r_wins s))) <= fst (get_win W e (r_wins s)) /\
+              (fst (get_win W e (r_wins s)) = maxseq48 \/ fst (get_win W e (r_wins s)) = maxseq64).
+
+  (* the highest record number kept per protected epoch IS the newest number of that epoch's detector *)
+  Definition HI (W : nat) (s : rstate) : Prop :=
+    forall e, e <> 0 -> get_high e (r_high s) = latest (snd (get_win W e (r_wins s))).
+
+  Lemma GI_init W cid neg rrc : GI W (rinit cid neg rrc) [].
+  Proof.
+    split; [constructor|]. intro e. unfold get_win. cbn [rinit r_wins]. destruct (N.to_nat e); cbn [nth fst snd].
+    all: split; [apply inv_init|]; cbn; split; [lia|now right].
+  Qed.
+
+  Lemma HI_init W cid neg rrc : HI W (rinit cid neg rrc).
+  Proof. intros e _. unfold get_high, get_win. cbn [rinit r_wins r_high]. destruct (N.to_nat e); reflexivity. Qed.
+
+  Lemma GI_wtrans W : N.of_nat W <= maxseq48 -> forall s m s', wtrans W s m s' ->
+    forall ms, GI W s ms -> GI W s' (ms ++ m).
+  Proof.
+    intros HW s m s' Ht. induction Ht as [s s' Hw Hh | s mx e Hmx | s prot e q Hl Hc Hp | s1 m1 s2 m2 s3 H1 IH1 H2 IH2];
+      intros ms [Hnd Hinv].
+    - rewrite app_nil_r. split; [exact Hnd|]. now rewrite Hw.
+    - rewrite app_nil_r. split; [exact Hnd|]. intro e2. cbn [r_wins with_wins].
+      rewrite get_win_ensure. destruct (Hinv e2) as (Ha & Hb & Hcc).
+      split; [exact Ha|].
+      destruct (get_win_ensure_fst W mx e e2 (r_wins s)) as [-> | [-> Hfresh]]; [auto|].
+      split; [|destruct Hmx; auto].
+      (* a freshly created detector has latest = 0 *)
+      rewrite Hfresh. cbn [win_init latest]. lia.
+    - destruct (Hinv e) as (HI & Hlat & Hmx).
+      set (mx := fst (get_win W e (r_wins s))) in *. set (w := snd (get_win W e (r_wins s))) in *.
+      assert (Hmx0 : 0 < mx) by (destruct Hmx as [-> | ->]; unfold maxseq48, maxseq64; lia).
+      assert (HWm : N.of_nat W <= mx) by (destruct Hmx as [-> | ->]; unfold maxseq48, maxseq64 in *; lia).
+      destruct (accept_inv W mx w _ q Hmx0 HWm HI Hc Hlat) as [HI' Hl'].
+      split.
+      + apply RecvSound.NoDup_app_one; [exact Hnd|].
+        intro Hin. apply RecvSound.in_Sof in Hin.
+        apply (check_spec W mx w _ q HI) in Hc. destruct Hc as [_ [Hlt | [_ Hn]]]; [|auto].
+        destruct HI as (_ & _ & Hle & _). specialize (Hle _ Hin). lia.
+      + intro e2. rewrite mark_wins. fold mx w.
+        destruct (N.eq_dec e2 e) as [-> | Hne].
+        * rewrite get_set_win_same by exact Hl. cbn [fst snd]. split; [|split; [exact Hl'|exact Hmx]].
+          eapply RecvSound.Inv_ext; [|exact HI'].
+          intro x. rewrite RecvSound.Sof_app, RecvSound.Sof_single_same, in_app_iff. cbn [In]. tauto.
+        * rewrite get_set_win_other by exact Hne. destruct (Hinv e2) as (Ha & Hb & Hcc).
+          split; [|split; assumption].
+          eapply RecvSound.Inv_ext; [|exact Ha].
+          intro x. rewrite RecvSound.Sof_app, RecvSound.Sof_single_other by congruence. now rewrite app_nil_r.
+    - rewrite app_assoc. apply IH2. apply IH1. split; assumption.
+  Qed.
+
+  Lemma HI_wtrans W s m s' : wtrans W s m s' -> HI W s -> HI W s'.
+  Proof.
+    intro Ht. induction Ht as [s s' Hw Hh | s mx e Hmx | s prot e q Hl Hc Hp | s1 m1 s2 m2 s3 H1 IH1 H2 IH2]; intro HH.
+    - intros e He. rewrite Hw, Hh. now apply HH.
+    - intros e2 He. cbn [r_wins r_high with_wins]. rewrite get_win_ensure. now apply HH.
+    - intros e2 He. rewrite mark_wins, mark_high.
+      destruct (N.eq_dec e2 e) as [-> | Hne].
+      + rewrite get_set_win_same by exact Hl. cbn [snd].
+        destruct Hp as [-> | ->]; [|lia].
+        destruct (accept_latest (fst (get_win W e (r_wins s))) (snd (get_win W e (r_wins s))) q) as [-> ->].
+        specialize (HH e He). cbn [andb].
+        destruct (latest (snd (get_win W e (r_wins s))) <? q) eqn:E; cbn [orb].
+        * rewrite get_high_update_same. lia.
+        * destruct (q =? 0) eqn:E0; [rewrite get_high_update_same; lia|exact HH].
+      + rewrite get_set_win_other by exact Hne.
+        destruct (prot && _); [rewrite get_high_update_other by exact Hne|]; now apply HH.
+    - auto.
+  Qed.
+
+  Lemma latest_mono_wtrans W s m s' : wtrans W s m s' ->
+    forall e, latest (snd (get_win W e (r_wins s))) <= latest (snd (get_win W e (r_wins s'))).
+  Proof.
+    intro Ht. induction Ht as [s s' Hw Hh | s mx e Hmx | s prot e q Hl Hc Hp | s1 m1 s2 m2 s3 H1 IH1 H2 IH2]; intro e2.
+    - rewrite Hw. lia.
+    - cbn [r_wins with_wins]. rewrite get_win_ensure. lia.
+    - rewrite mark_wins. destruct (N.eq_dec e2 e) as [-> | Hne].
+      + rewrite get_set_win_same by exact Hl. cbn [snd].
+        destruct (accept_latest (fst (get_win W e (r_wins s))) (snd (get_win W e (r_wins s))) q) as [-> _].
+        destruct (_ <? q) eqn:E; lia.
+      + rewrite get_set_win_other by exact Hne. lia.
+    - specialize (IH1 e2). specialize (IH2 e2). lia.
+  Qed.
+
+  (* C06 over histories: over every operation history (datagrams in any order with any repetition,
+     key installations incl. KeyUpdate generations, epoch changes, replays of the parked queue) no
+     (epoch, record number) is committed twice *)
+  Theorem marks_nodup W cid neg rrc ops : N.of_nat W <= maxseq48 ->
+    NoDup (marks (snd (run_ops W (rinit cid neg rrc) ops))).
+  Proof.
+    intro HW. pose proof (GI_wtrans W HW _ _ _ (run_wtrans W ops (rinit cid neg rrc)) [] (GI_init W cid neg rrc)) as [H _].
+    exact H.
+  Qed.
+
+  (* ... and from any state whose detectors reflect its own past *)
+  Theorem marks_nodup_from W s ms ops : N.of_nat W <= maxseq48 -> GI W s ms ->
+    NoDup (ms ++ marks (snd (run_ops W s ops))).
+  Proof. intros HW HG. exact (proj1 (GI_wtrans W HW _ _ _ (run_wtrans W ops s) ms HG)). Qed.
+
+  Theorem high_is_latest W cid neg rrc ops e : e <> 0 ->
+    let s := fst (run_ops W (rinit cid neg rrc) ops) in
+    get_high e (r_high s) = latest (snd (get_win W e (r_wins s))).
+  Proof. intro He. exact (HI_wtrans W _ _ _ (run_wtrans W ops _) (HI_init W cid neg rrc) e He). Qed.
+
+  Theorem window_monotone W s ops e :
+    latest (snd (get_win W e (r_wins s))) <= latest (snd (get_win W e (r_wins (fst (run_ops W s ops))))).
+  Proof. exact (latest_mono_wtrans W _ _ _ (run_wtrans W ops s) e). Qed.
+
+  (* ---------------------------------------------------------------- C05: what is delivered / acted on *)
+
+  Lemma decode_app t body p : decode_content t body = CApp p -> t = 23 /\ p = body.
+  Proof.
+    unfold decode_content. destruct (t =? 21) eqn:E1.
+    { destruct body as [|l [|d [|x body]]]; discriminate. }
+    destruct (t =? 23) eqn:E2; [intro H; inversion H; split; [lia|reflexivity]|].
+    destruct (t =? 26); [destruct (ack_ok body); discriminate|].
+    destruct (t =? 27); [destruct (rrc_ok body); discriminate|discriminate].
+  Qed.
+
+  Lemma dispatch_deliveries W prot s e q t body :
+    deliveries (snd (dispatch W prot s e q t body)) =
+    if (t =? 23) && negb (e =? 0) then [(body, e, q)] else [].
+  Proof.
+    unfold Rec13.dispatch. destruct (t =? 22) eqn:E22.
+    { assert (t =? 23 = false) by lia. rewrite H. destruct (hs_ok hs_room body); reflexivity. }
+    destruct (decode_content t body) as [p | level desc | | | ] eqn:Ed.
+    - apply decode_app in Ed. destruct Ed as [-> ->]. cbn [N.eqb Pos.eqb andb].
+      destruct (e =? 0); reflexivity.
+    - assert (t =? 23 = false).
+      { unfold decode_content in Ed. destruct (t =? 21) eqn:E1; [lia|]. destruct (t =? 23); [discriminate|reflexivity]. }
+      rewrite H. cbn [andb].
+      destruct ((level =? 2) || (desc =? 0)); destruct (desc =? 0); reflexivity.
+    - assert (t =? 23 = false).
+      { unfold decode_content in Ed. destruct (t =? 21) eqn:E1; [lia|]. destruct (t =? 23); [discriminate|reflexivity]. }
+      rewrite H. destruct (e =? 0); reflexivity.
+    - assert (t =? 23 = false).
+      { unfold decode_content in Ed. destruct (t =? 21) eqn:E1; [lia|]. destruct (t =? 23); [discriminate|reflexivity]. }
+      rewrite H. destruct ((e =? 0) || negb (r_rrc s)); reflexivity.
+    - assert (t =? 23 = false).
+      { unfold decode_content in Ed. destruct (t =? 21) eqn:E1; [lia|]. destruct (t =? 23); [discriminate|reflexivity]. }
+      rewrite H. destruct (e =? 0); reflexivity.
+  Qed.
+
+  Lemma dispatch_marks W prot s e q t body e' q' :
+    In (e', q') (marks (snd (dispatch W prot s e q t body))) -> e' = e /\ q' = q.
+  Proof.
+    unfold Rec13.dispatch. destruct (t =? 22).
+    { destruct (hs_ok hs_room body); cbn; [intros [H | []]; now inversion H | intros []]. }
+    destruct (decode_content t body) as [p | level desc | | | ].
+    - destruct (e =? 0); cbn; [intros [] | intros [H | []]; now inversion H].
+    - destruct ((level =? 2) || (desc =? 0)); destruct (desc =? 0); cbn; intros [H | []]; now inversion H.
+    - destruct (e =? 0); cbn; [intros [] | intros [H | []]; now inversion H].
+    - destruct ((e =? 0) || negb (r_rrc s)); cbn; [intros [] | intros [H | []]; now inversion H].
+    - destruct (e =? 0); cbn; intros [].
+  Qed.
+
+  (* exactly what a ciphertext record delivers to Read *)
+  Theorem cipher_deliveries W lease s b :
+    deliveries (snd (recv_cipher W lease s b)) =
+    match auth_cipher s b with
+    | Some (body, t, q, e) =>
+        if has_prot s &&
+           check (fst (get_win W e (ensure_wins W maxseq64 e (r_wins s))))
+                 (snd (get_win W e (ensure_wins W maxseq64 e (r_wins s)))) q &&
+           (q <=? maxseq48) && (t =? 23) && negb (e =? 0)
+        then [(body, e, q)] else []
+    | None => []
+    end.
+  Proof.
+    unfold auth_cipher, Rec13.recv_cipher.
+    destruct (parse_crec s b) as [[h ct]|]; [|reflexivity].
+    destruct (has_prot s); cbn [negb andb].
+    2:{ destruct (open_record s h ct) as [? ? ? ?| |]; reflexivity. }
+    destruct (open_record s h ct) as [body t q e | | ]; [|reflexivity|reflexivity].
+    cbn [r_wins with_wins].
+    destruct (get_win W e (ensure_wins W maxseq64 e (r_wins s))) as [mx w]. cbn [fst snd].
+    destruct (check mx w q); cbn [negb andb]; [|reflexivity].
+    destruct (maxseq48 <? q) eqn:E; [assert (Hq : q <=? maxseq48 = false) by lia; now rewrite Hq|].
+    assert (Hq : q <=? maxseq48 = true) by lia. rewrite Hq. cbn [andb].
+    apply dispatch_deliveries.
+  Qed.
+
+  (* an unprotected (legacy header) record never delivers application data *)
+  Theorem legacy_deliveries W lease s b : deliveries (snd (recv_legacy W lease s b)) = [].
+  Proof.
+    unfold Rec13.recv_legacy.
+    destruct (length b <? 13)%nat; [reflexivity|].
+    destruct (negb (legacy_version_ok b)); [reflexivity|].
+    destruct (r_epoch s <? _); [reflexivity|].
+    cbn [r_wins with_wins].
+    destruct (get_win W _ _) as [mx w].
+    destruct (negb (check mx w _)); [reflexivity|].
+    destruct (_ =? 0) eqn:E0.
+    - rewrite dispatch_deliveries. rewrite E0. now rewrite andb_false_r.
+    - destruct (negb (has_prot _)); reflexivity.
+  Qed.
+
+  Lemma open_cands_spec s h ct : forall cs body t q e,
+    snd (open_cands s h ct cs) = Some (body, t, q, e) ->
+    In e cs /\ e <= r_epoch s /\ open_gen s h ct e = Some (body, t, q).
+  Proof.
+    induction cs as [|c cs IH]; intros body t q e H; [discriminate|].
+    cbn [Rec13.open_cands] in H. destruct (r_epoch s <? c) eqn:E.
+    - destruct (IH _ _ _ _ H) as (H1 & H2 & H3). split; [now right|auto].
+    - destruct (open_gen s h ct c) as [[[body' t'] q']|] eqn:Eo.
+      + cbn in H. inversion H; subst. split; [now left|]. split; [lia|exact Eo].
+      + cbn [snd] in H. destruct (IH _ _ _ _ H) as (H1 & H2 & H3). split; [now right|auto].
+  Qed.
+
+  Lemma mem_N_In e l : mem_N e l = true <-> In e l.
+  Proof.
+    unfold mem_N. rewrite existsb_exists. split.
+    - intros (x & Hx & He). apply N.eqb_eq in He. now subst.
+    - intro H. exists e. split; [exact H|apply N.eqb_refl].
+  Qed.
+
+  Lemma read_candidates_spec s elow e : In e (read_candidates s elow) -> has_gen s e = true /\ e mod 4 = elow.
+  Proof.
+    unfold read_candidates, has_gen. rewrite in_app_iff. intros [H | H].
+    - destruct (r_cur s) as [c|]; [|destruct H]. destruct (c mod 4 =? elow) eqn:E; [|destruct H].
+      destruct H as [-> | []]. rewrite N.eqb_refl. split; [reflexivity|lia].
+    - apply filter_In in H. destruct H as [H1 H2]. split; [|lia].
+      apply mem_N_In in H1. destruct (r_cur s) as [c|]; [rewrite H1; apply orb_true_r|exact H1].
+  Qed.
+
+  (* unfolding "authenticates": the parse, the generation, the rebuilt record number, the AEAD *)
+  Theorem auth_cipher_spec s b body t q e :
+    auth_cipher s b = Some (body, t, q, e) ->
+    exists h ct inner,
+      parse_crec s b = Some (h, ct) /\
+      has_gen s e = true /\ e mod 4 = u_elow h /\ e <= r_epoch s /\
+      let clear := apply_mask h (snmask e ct) in
+      q = reconstruct (u_seq clear) (u_sbit clear) (get_high e (r_high s)) /\
+      aopen e q (uh_marshal clear) ct = Some inner /\
+      inner_unmarshal inner = Some (body, t) /\ inner_type_ok t = true.
+  Proof.
+    unfold auth_cipher. destruct (parse_crec s b) as [[h ct]|]; [|discriminate].
+    unfold Rec13.open_record.
+    destruct (open_cands s h ct (read_candidates s (u_elow h))) as [el [[[[body' t'] q'] e']|]] eqn:Eo.
+    2:{ destruct el; discriminate. }
+    intro H. assert (Heq : (body', t', q', e') = (body, t, q, e)) by (destruct el; cbn in H; now inversion H).
+    inversion Heq; subst. clear H Heq.
+    pose proof (open_cands_spec s h ct (read_candidates s (u_elow h)) body t q e) as Hs. rewrite Eo in Hs. specialize (Hs eq_refl).
+    destruct Hs as (Hin & Hle & Hg). destruct (read_candidates_spec _ _ _ Hin) as [Hhg Hmod].
+    unfold Rec13.open_gen in Hg.
+    destruct (negb (lowbits_ok _ _)); [discriminate|].
+    destruct (aopen e _ _ ct) as [inner|] eqn:Ea; [|discriminate].
+    destruct (inner_unmarshal inner) as [[body'' t'']|] eqn:Ei; [|discriminate].
+    destruct (inner_type_ok t'') eqn:Et; [|discriminate].
+    inversion Hg; subst. exists h, ct, inner. cbn zeta. auto 10.
+  Qed.
+
+  Lemma recv_record_deliver W lease s b p e q :
+    In (p, e, q) (deliveries (snd (recv_record W lease s b))) ->
+    auth_cipher s b = Some (p, 23, q, e) /\ e <> 0 /\ has_prot s = true /\ q <= maxseq48.
+  Proof.
+    unfold Rec13.recv_record. destruct b as [|c b']; [intros []|].
+    destruct (is_ct13 c); [|rewrite legacy_deliveries; intros []].
+    rewrite cipher_deliveries. destruct (auth_cipher s (c :: b')) as [[[[body t] q'] e']|]; [|intros []].
+    destruct (has_prot s); [|intros []]. cbn [andb].
+    destruct (check _ _ q'); [|intros []]. cbn [andb].
+    destruct (q' <=? maxseq48) eqn:Eq; [|intros []]. cbn [andb].
+    destruct (t =? 23) eqn:Et; [|intros []]. cbn [andb].
+    destruct (e' =? 0) eqn:E0; [intros []|]. cbn [negb].
+    intros [H | []]. inversion H; subst. assert (t = 23) by lia. subst t.
+    repeat split; auto; lia.
+  Qed.
+
+  Lemma recv_cipher_marks W lease s b e q :
+    In (e, q) (marks (snd (recv_cipher W lease s b))) -> exists body t, auth_cipher s b = Some (body, t, q, e).
+  Proof.
+    unfold auth_cipher, Rec13.recv_cipher.
+    destruct (parse_crec s b) as [[h ct]|]; [|intros []].
+    destruct (negb (has_prot s)); [intros []|].
+    destruct (open_record s h ct) as [body t q' e' | | ]; [|intros []|intros []].
+    destruct (get_win W e' _) as [mx w]. destruct (negb (check mx w q')); [intros []|].
+    destruct (maxseq48 <? q'); [intros []|].
+    intro H. apply dispatch_marks in H. destruct H as [-> ->]. now exists body, t.
+  Qed.
+
+  Lemma recv_legacy_marks W lease s b e q :
+    In (e, q) (marks (snd (recv_legacy W lease s b))) -> e = 0.
+  Proof.
+    unfold Rec13.recv_legacy.
+    destruct (length b <? 13)%nat; [intros []|].
+    destruct (negb (legacy_version_ok b)); [intros []|].
+    destruct (r_epoch s <? _); [intros []|].
+    destruct (get_win W _ _) as [mx w].
+    destruct (negb (check mx w _)); [intros []|].
+    destruct (_ =? 0) eqn:E0.
+    - intro H. apply dispatch_marks in H. destruct H as [-> _]. lia.
+    - destruct (negb (has_prot _)); intros [].
   Qed.
 End Recv.
